@@ -302,6 +302,32 @@ func ParamScenarios() []History {
 	)
 	add("no-slash-raised-minimum-tax-changes", smallParams(), nil, ops...)
 
+	// parameter-change proposals the module's validators refuse (a slash fraction above 1 and below 0, a tax of
+	// 1, a maximum timeout of 0, a multiple of 0, a period of 0), among ones at the edges they accept
+	ops = registry(map[string]int64{"p1": 5, "p2": 3})
+	ops = append(ops,
+		Ev{Name: "Call", Signer: "c1", Svc: "s1", Provs: []string{"p1", "p2"}, Cap: 10, Timeout: 2, Rep: true, Freq: 2, Total: 3},
+		eb(1),
+		with(func(p *MParams) { p.Slash = 1001 }),
+		Ev{Name: "Call", Signer: "c2", Svc: "s1", Provs: []string{"p1", "p2"}, Cap: 10, Timeout: 1},
+		eb(1),
+		Ev{Name: "Respond", Signer: "p2", Rid: rid(2, 1, 2, 1), Kind: "bad"}, // slashed under the fraction in force, the old one
+		with(func(p *MParams) { p.Slash = -1 }),
+		eb(1), // p1 times out on the second call: slashed under the old fraction
+		with(func(p *MParams) { p.Tax = 1000 }),
+		with(func(p *MParams) { p.MaxTimeout = 0 }),
+		with(func(p *MParams) { p.Multiple = 0 }),
+		with(func(p *MParams) { p.RefundDelay = 1 }),
+		with(func(p *MParams) { p.Slash = 1000; p.Tax = 999 }),
+		Ev{Name: "Respond", Signer: "p1", Rid: rid(1, 1, 1, 0), Kind: "valid"},
+		Ev{Name: "Respond", Signer: "p2", Rid: rid(1, 1, 1, 1), Kind: "bad"},
+		eb(1), eb(1),
+		with(func(p *MParams) { p.Slash = 0; p.Tax = 0 }),
+		eb(1), eb(1), eb(1),
+		Ev{Name: "Withdraw", Signer: "o1"},
+	)
+	add("proposals-the-validators-refuse", smallParams(), nil, ops...)
+
 	// no global minimum deposit (the parameter is the empty coin set): the price alone bounds the deposit,
 	// at bind, re-pricing, enabling and when a slash takes the deposit below it
 	free := &MParams{MaxTimeout: 6, Multiple: 10, MinDeposit: 0, Tax: 100, Slash: 500, RefundDelay: 6}
